@@ -489,8 +489,21 @@ func c12ValueKey(c *Ctx) {
 			ok = d && cs.X.Args[1].Op == "const" && cs.X.Args[1].Name == code
 		}
 		c.Check(ok, "C12.D6-value-key", sm.Name+" › double SHA-256 multihash", sm.SSA.Pos(), "second hash = DBL_SHA2_256 multihash of SHA-256(prefix ‖ multihash)", "second hash is not the DBL_SHA2_256 encoding of SHA-256 over (prefix, multihash)")
+		// …for every input: whatever the multihash handed in looks like, what comes back is that encoding — never the
+		// input itself (an input that already has the second-hash code would be looked up, and stored, un-blinded)
+		always := true
+		for _, b := range sm.SSA.Blocks {
+			if ret, isRet := b.Instrs[len(b.Instrs)-1].(*ssa.Return); isRet && len(ret.Results) == 1 {
+				for _, l := range c.Leaves(c.RetX(ret, 0), ret) {
+					if _, m := Match(Extract("0", Call("go-multihash.Encode")), l); !m {
+						always = false
+					}
+				}
+			}
+		}
+		c.Check(always, "C12.D6-value-key", sm.Name+" › hashes every input", sm.SSA.Pos(), "every return is the encoded second hash", "some inputs are returned without being hashed: their 'second hash' equals the original multihash, so the reader-privacy lookup reveals it")
 	}
-	c.Floor("C12.D6-value-key", 3)
+	c.Floor("C12.D6-value-key", 4)
 }
 
 // findClientPkgOf: module-relative path of the package a function belongs to.
